@@ -47,6 +47,11 @@ func countedLoops(fn *ssa.Function) []*countedLoop {
 				op = negateTok(op)
 			}
 			x, y := cd.X, cd.Y
+			// `for len(s) < n { s = append(s, e) }` with s empty at entry: len(s) counts 0, 1, 2, …
+			if sphi := lenCounted(l, x); sphi != nil {
+				out = append(out, &countedLoop{l, x, ssaConstInt(0), y, op, 1})
+				continue
+			}
 			phi, ok := x.(*ssa.Phi)
 			if !ok {
 				// rangeindex form: t1 = phi + 1; if t1 < len
@@ -86,6 +91,51 @@ func countedLoops(fn *ssa.Function) []*countedLoop {
 		}
 	}
 	return out
+}
+
+// lenCounted: x is len(s) for a header phi s that is empty at loop entry and becomes append(s, one element) on
+// every way around the loop; returns s.
+func lenCounted(l *core.Loop, x ssa.Value) *ssa.Phi {
+	sv, isLen := core.IsLenOf(x)
+	if !isLen {
+		return nil
+	}
+	s, isPhi := sv.(*ssa.Phi)
+	if !isPhi || s.Block() != l.Header {
+		return nil
+	}
+	if _, isSlice := s.Type().Underlying().(*types.Slice); !isSlice {
+		return nil
+	}
+	for i, e := range s.Edges {
+		pred := l.Header.Preds[i]
+		if !l.Blocks[pred] {
+			empty := false
+			switch in := e.(type) {
+			case *ssa.MakeSlice:
+				if k, isK := core.ConstInt(in.Len); isK && k == 0 {
+					empty = true
+				}
+			case *ssa.Slice:
+				if in.High != nil {
+					if k, isK := core.ConstInt(in.High); isK && k == 0 {
+						empty = true
+					}
+				}
+			case *ssa.Const:
+				empty = in.IsNil()
+			}
+			if !empty {
+				return nil
+			}
+			continue
+		}
+		app, isCall := e.(*ssa.Call)
+		if !isCall || appendedElem(app) == nil || app.Call.Args[0] != ssa.Value(s) || !app.Block().Dominates(pred) {
+			return nil
+		}
+	}
+	return s
 }
 
 // constLen: the constant length of a slice/array value (make with a constant length, an array, a re-slice of one).
@@ -226,23 +276,29 @@ func (a aff) isZero() bool {
 func affEq(a, b aff) bool { return a.add(b, -1).isZero() }
 
 // affOf reads v as an affine form (+, -, multiplication by a constant; everything else is a leaf).
-func affOf(v ssa.Value, d int) aff {
+func affOf(v ssa.Value, d int) aff { return affOfStop(v, nil, d) }
+
+// affOfStop is affOf with one value (a loop variable, possibly itself of the form phi+1) kept as a leaf.
+func affOfStop(v ssa.Value, stop ssa.Value, d int) aff {
 	v = core.StripConv(v)
+	if stop != nil && v == stop {
+		return aff{[]ssa.Value{v}, []int64{1}, 0, true}
+	}
 	if k, isK := core.ConstInt(v); isK {
 		return aff{nil, nil, k, true}
 	}
 	if bo, isB := v.(*ssa.BinOp); isB && d < 12 {
 		switch bo.Op {
 		case token.ADD:
-			return affOf(bo.X, d+1).add(affOf(bo.Y, d+1), 1)
+			return affOfStop(bo.X, stop, d+1).add(affOfStop(bo.Y, stop, d+1), 1)
 		case token.SUB:
-			return affOf(bo.X, d+1).add(affOf(bo.Y, d+1), -1)
+			return affOfStop(bo.X, stop, d+1).add(affOfStop(bo.Y, stop, d+1), -1)
 		case token.MUL:
 			if k, isK := core.ConstInt(core.StripConv(bo.X)); isK {
-				return affOf(bo.Y, d+1).scale(k)
+				return affOfStop(bo.Y, stop, d+1).scale(k)
 			}
 			if k, isK := core.ConstInt(core.StripConv(bo.Y)); isK {
-				return affOf(bo.X, d+1).scale(k)
+				return affOfStop(bo.X, stop, d+1).scale(k)
 			}
 		}
 	}
@@ -368,6 +424,69 @@ func (cl *countedLoop) values() ([]int64, bool) {
 	return out, true
 }
 
+// valuesAt: the values of the loop variable for which block blk of the loop body is executed, as far as the guards
+// that blk lies behind compare the loop variable with constants (`case j == n`, `case j > 0`): every value of the
+// constant-trip loop is tried against the comparison edges blk can only be reached through.
+func (cl *countedLoop) valuesAt(fn *ssa.Function, blk *ssa.BasicBlock) ([]int64, bool) {
+	vals, ok := cl.values()
+	if !ok || len(blk.Instrs) == 0 {
+		return nil, false
+	}
+	type guard struct {
+		cd   core.CondEdge
+		edge int
+	}
+	var guards []guard
+	for _, cd := range core.Conds(fn) {
+		if !cl.loop.Blocks[cd.Block] || cd.Block == cl.loop.Header {
+			continue
+		}
+		x, y := core.StripConv(cd.X), core.StripConv(cd.Y)
+		_, xk := core.ConstInt(x)
+		_, yk := core.ConstInt(y)
+		if !((x == cl.phi && yk) || (y == cl.phi && xk)) {
+			continue
+		}
+		for e := 0; e < 2; e++ {
+			cut := core.NewCuts()
+			cut.AddEdge(cd.Block, e)
+			other := core.NewCuts()
+			other.AddEdge(cd.Block, 1-e)
+			// blk lies behind edge e of this comparison (and not behind the other one)
+			if core.MustPass(fn, cut, blk.Instrs[0]) && !core.MustPass(fn, other, blk.Instrs[0]) {
+				guards = append(guards, guard{cd, e})
+			}
+		}
+	}
+	var out []int64
+	for _, v := range vals {
+		in := true
+		for _, g := range guards {
+			abs := func(w ssa.Value) (int64, bool) {
+				if core.StripConv(w) == cl.phi {
+					return v, true
+				}
+				return 0, false
+			}
+			r, okR := core.EvalInt(g.cd.If.Cond, abs)
+			if !okR {
+				return nil, false
+			}
+			taken := 1
+			if r != 0 {
+				taken = 0
+			}
+			if taken != g.edge {
+				in = false
+			}
+		}
+		if in {
+			out = append(out, v)
+		}
+	}
+	return out, true
+}
+
 func loopOf(cls []*countedLoop, b *ssa.BasicBlock) *countedLoop {
 	var best *countedLoop
 	for _, cl := range cls {
@@ -396,58 +515,57 @@ func RuleG7(c *Ctx) {
 			gos = append(gos, g)
 		}
 	})
-	if len(gos) != 1 {
-		c.Bad("G7", "Execute:one-spawn-site", fn.Pos(), fmt.Sprintf("Execute must have exactly one `go` statement (one per iteration); found %d", len(gos)))
+	if len(gos) == 0 {
+		c.Bad("G7", "Execute:one-spawn-site", fn.Pos(), "Execute has no `go` statement")
 		return
 	}
-	g := gos[0]
 	cls := countedLoops(fn)
-	cl := loopOf(cls, g.Block())
+	cl := loopOf(cls, gos[0].Block())
 	facts++
 	if cl == nil {
-		c.Bad("G7", "Execute:spawn-in-task-loop", g.Pos(), "the spawn is not inside a counted loop over the tasks")
+		c.Bad("G7", "Execute:spawn-in-task-loop", gos[0].Pos(), "the spawn is not inside a counted loop over the tasks")
 		return
 	}
-	// no inner loop around the go inside cl, and the go block is executed exactly once per iteration:
-	// its block post-dominates the loop body entry (every path from header-body-edge back to header passes it)
+	// exactly one spawn per iteration: every way round the loop passes a go statement, no go statement can be followed
+	// by another one before the header is reached again, and none sits in an inner loop
 	cutG := core.NewCuts()
-	cutG.AddInstr(g)
+	for _, g := range gos {
+		cutG.AddInstr(g)
+	}
+	hdrLast := cl.loop.Header.Instrs[len(cl.loop.Header.Instrs)-1]
 	oncePer := true
-	// from the header, the back edge must not be reachable without passing g
 	for _, pred := range cl.loop.Header.Preds {
 		if cl.loop.Blocks[pred] {
 			last := pred.Instrs[len(pred.Instrs)-1]
-			if pred != g.Block() && core.ReachableAvoiding(fn, cl.loop.Header.Instrs[len(cl.loop.Header.Instrs)-1], cutG, last) {
+			isGoBlock := false
+			for _, g := range gos {
+				if g.Block() == pred {
+					isGoBlock = true
+				}
+			}
+			if !isGoBlock && core.ReachableAvoiding(fn, hdrLast, cutG, last) {
 				oncePer = false
 			}
 		}
 	}
-	if il := core.InnermostLoop(core.Loops(fn), g.Block()); il == nil || il.Header != cl.loop.Header {
-		oncePer = false
-	}
-	c.Check(oncePer, "G7", "Execute:one-spawn-per-iteration", g.Pos(), "an iteration of the task loop can complete without spawning, or spawns inside an inner loop", "every path through the loop body passes the single go statement")
-
-	// closure
-	tgt, mc := closureOf(g.Call.Value)
-	if tgt == nil {
-		c.Und("G7", "Execute:closure", g.Pos(), "cannot resolve the spawned closure")
-		return
-	}
-	// what a value of the spawned function is bound to in Execute: a captured cell, or the argument of the go statement
-	boundTo := func(v ssa.Value) ssa.Value {
-		switch x := v.(type) {
-		case *ssa.FreeVar:
-			return core.FreeVarBinding(x)
-		case *ssa.Parameter:
-			for pi, q := range tgt.Params {
-				if q == x && pi < len(g.Call.Args) {
-					return g.Call.Args[pi]
-				}
+	for _, g := range gos {
+		if loopOf(cls, g.Block()) != cl {
+			oncePer = false
+		}
+		if il := core.InnermostLoop(core.Loops(fn), g.Block()); il == nil || il.Header != cl.loop.Header {
+			oncePer = false
+		}
+		stop := core.NewCuts()
+		stop.AddInstr(hdrLast)
+		for _, g2 := range gos {
+			if g2 != g && core.ReachableAvoiding(fn, g, stop, g2) {
+				oncePer = false // two spawns in one iteration
 			}
 		}
-		return nil
 	}
-	// wg
+	c.Check(oncePer, "G7", "Execute:one-spawn-per-iteration", gos[0].Pos(), "an iteration of the task loop can complete without spawning, spawn twice, or spawns inside an inner loop", fmt.Sprintf("every path through the loop body passes exactly one of the %d go statement(s)", len(gos)))
+
+	// the WaitGroup: one Add(1) before each spawn, one Wait
 	var wgCell *ssa.Alloc
 	var adds, waits []*ssa.Call
 	for _, ci := range core.CallsIn(fn) {
@@ -464,141 +582,200 @@ func RuleG7(c *Ctx) {
 		}
 	}
 	facts++
-	if len(adds) != 1 || len(waits) != 1 {
-		c.Bad("G7", "Execute:waitgroup-shape", fn.Pos(), fmt.Sprintf("expected one wg.Add and one wg.Wait, found %d and %d", len(adds), len(waits)))
+	if len(adds) != len(gos) || len(waits) != 1 {
+		c.Bad("G7", "Execute:waitgroup-shape", fn.Pos(), fmt.Sprintf("expected one wg.Add per go statement and one wg.Wait, found %d Add, %d go, %d Wait", len(adds), len(gos), len(waits)))
 		return
 	}
 	wgCell, _ = adds[0].Call.Args[0].(*ssa.Alloc)
-	k, isK := core.ConstInt(adds[0].Call.Args[1])
-	okAdd := wgCell != nil && isK && k == 1 && cl.loop.Blocks[adds[0].Block()] && (adds[0].Block() == g.Block() || adds[0].Block().Dominates(g.Block())) && !core.CanReach(fn, g, adds[0]) == false
-	// Add must precede go within the iteration: every path header->go passes Add
-	cutA := core.NewCuts()
-	cutA.AddInstr(adds[0])
-	pre := !core.ReachableAvoiding(fn, cl.loop.Header.Instrs[len(cl.loop.Header.Instrs)-1], cutA, g)
-	c.Check(wgCell != nil && isK && k == 1 && pre && okAdd, "G7", "Execute:Add(1)-before-spawn", adds[0].Pos(), "wg.Add(1) does not precede the spawn in every iteration", "Add(1) on every path from the loop header to the go statement")
 	facts++
-	c.Check(waits[0].Call.Args[0] == ssa.Value(wgCell) && core.PostDominatesEntry(fn, waits[0]) && !cl.loop.Blocks[waits[0].Block()], "G7", "Execute:Wait-postdominates", waits[0].Pos(), "wg.Wait() on the same WaitGroup does not lie on every path from entry to return (Execute may return before all invocations finished)", "Wait after the loop on every path to return")
-	facts++
-	// closure body
-	var workCalls, dones []ssa.CallInstruction
-	for _, ci := range core.CallsIn(tgt) {
-		cc := ci.Common()
-		if core.IsMethod(core.Callee(cc), "sync", "WaitGroup", "Done") {
-			dones = append(dones, ci)
+	c.Check(wgCell != nil && waits[0].Call.Args[0] == ssa.Value(wgCell) && core.PostDominatesEntry(fn, waits[0]) && !cl.loop.Blocks[waits[0].Block()], "G7", "Execute:Wait-postdominates", waits[0].Pos(), "wg.Wait() on the same WaitGroup does not lie on every path from entry to return (Execute may return before all invocations finished)", "Wait after the loop on every path to return")
+
+	for gi, g := range gos {
+		sfx := ""
+		if len(gos) > 1 {
+			sfx = fmt.Sprintf("#%d", gi+1)
+		}
+		// closure
+		tgt, mc := closureOf(g.Call.Value)
+		if tgt == nil {
+			c.Und("G7", "Execute:closure"+sfx, g.Pos(), "cannot resolve the spawned closure")
 			continue
 		}
-		if cc.IsInvoke() {
-			continue
-		}
-		if core.Callee(cc) == nil && isFuncParamValue(cc.Value) {
-			workCalls = append(workCalls, ci)
-		}
-	}
-	okWork := len(workCalls) == 1 && core.PostDominatesEntry(tgt, workCalls[0])
-	if okWork {
-		if _, plain := workCalls[0].(*ssa.Call); !plain {
-			okWork = false
-		}
-		// the callee value is Execute's `work` parameter (captured, or handed over as an argument)
-		isWork := func(v ssa.Value) bool {
-			if p, isP := v.(*ssa.Parameter); isP && p.Parent() == fn {
-				return p.Name() == "work"
-			}
-			if u, isLoad := v.(*ssa.UnOp); isLoad && u.Op == token.MUL {
-				if al, isAl := u.X.(*ssa.Alloc); isAl && core.ParamSpill(al) != nil {
-					return core.ParamSpill(al).Name() == "work"
-				}
-			}
-			if al, isAl := v.(*ssa.Alloc); isAl && core.ParamSpill(al) != nil {
-				return core.ParamSpill(al).Name() == "work"
-			}
-			return false
-		}
-		switch x := workCalls[0].Common().Value.(type) {
-		case *ssa.UnOp:
-			if b := boundTo(x.X); b == nil || !isWork(b) {
-				okWork = false
-			}
-		case *ssa.Parameter:
-			if b := boundTo(x); b == nil || !isWork(b) {
-				okWork = false
-			}
-		default:
-			okWork = false
-		}
-	}
-	facts++
-	c.Check(okWork, "G7", "Execute:closure-calls-work-once", tgt.Pos(), "the spawned closure does not call the work function exactly once on every path", "one call of work, post-dominating the closure's entry")
-	okDone := len(dones) == 1 && len(workCalls) == 1 && core.PostDominatesEntry(tgt, dones[0])
-	if okDone {
-		if b := boundTo(dones[0].Common().Args[0]); b != ssa.Value(wgCell) {
-			okDone = false
-		}
-		if _, isDefer := dones[0].(*ssa.Defer); !isDefer {
-			// a plain call must come after the work call on every path; a deferred Done runs at function exit
-			okDone = okDone && core.Precedes(tgt, workCalls[0], dones[0])
-		}
-		if _, isGo := dones[0].(*ssa.Go); isGo {
-			okDone = false
-		}
-	}
-	facts++
-	c.Check(okDone, "G7", "Execute:Done-after-work", tgt.Pos(), "wg.Done() on Execute's WaitGroup does not follow the work call on every path of the closure", "Done after work on every path")
-	// arguments: loads of per-iteration cells
-	okArgs := len(workCalls) == 1
-	if okArgs {
-		s := &spawnSite{kind: "go", at: g, parent: fn, top: fn, target: tgt, closure: mc}
-		oc := &ownCtx{site: s, loops: map[*ssa.Function][]*core.Loop{}, seen: map[ssa.Value]bool{}}
-		seenCells := map[ssa.Value]bool{}
-		seenVals := map[ssa.Value]bool{}
-		for _, a := range workCalls[0].Common().Args {
-			// by-value form: go func(from, to int) { work(from, to) }(start, end) — the values are fixed at the spawn
-			if p, isParam := a.(*ssa.Parameter); isParam {
-				bound := false
+		// what a value of the spawned function is bound to in Execute: a captured cell, or the argument of the go statement
+		boundTo := func(v ssa.Value) ssa.Value {
+			switch x := v.(type) {
+			case *ssa.FreeVar:
+				return core.FreeVarBinding(x)
+			case *ssa.Parameter:
 				for pi, q := range tgt.Params {
-					if q == p && pi < len(g.Call.Args) {
-						v := g.Call.Args[pi]
-						if seenVals[v] {
-							okArgs = false // same value passed twice (start == end)
-						}
-						seenVals[v] = true
-						// computed in this iteration, not a value carried over from another one
-						if ins, isIns := v.(ssa.Instruction); isIns && cl.loop.Blocks[ins.Block()] {
-							bound = true
-						}
+					if q == x && pi < len(g.Call.Args) {
+						return g.Call.Args[pi]
 					}
 				}
-				if !bound {
+			}
+			return nil
+		}
+		// the Add(1) of this spawn: on every path from the loop header to the go statement, on this WaitGroup
+		var add *ssa.Call
+		for _, a := range adds {
+			cutA := core.NewCuts()
+			cutA.AddInstr(a)
+			if cl.loop.Blocks[a.Block()] && !core.ReachableAvoiding(fn, hdrLast, cutA, g) {
+				add = a
+			}
+		}
+		okAdd := add != nil
+		if okAdd {
+			k, isK := core.ConstInt(add.Call.Args[1])
+			okAdd = isK && k == 1 && add.Call.Args[0] == ssa.Value(wgCell) && wgCell != nil
+		}
+		c.Check(okAdd, "G7", "Execute:Add(1)-before-spawn"+sfx, g.Pos(), "wg.Add(1) does not precede the spawn in every iteration", "Add(1) on every path from the loop header to the go statement")
+		facts++
+		// closure body
+		var workCalls, dones []ssa.CallInstruction
+		for _, ci := range core.CallsIn(tgt) {
+			cc := ci.Common()
+			if core.IsMethod(core.Callee(cc), "sync", "WaitGroup", "Done") {
+				dones = append(dones, ci)
+				continue
+			}
+			if cc.IsInvoke() {
+				continue
+			}
+			if core.Callee(cc) == nil && isFuncParamValue(cc.Value) {
+				workCalls = append(workCalls, ci)
+			}
+		}
+		okWork := len(workCalls) == 1 && core.PostDominatesEntry(tgt, workCalls[0])
+		if okWork {
+			if _, plain := workCalls[0].(*ssa.Call); !plain {
+				okWork = false
+			}
+			// the callee value is Execute's `work` parameter (captured, or handed over as an argument)
+			isWork := func(v ssa.Value) bool {
+				if p, isP := v.(*ssa.Parameter); isP && p.Parent() == fn {
+					return p.Name() == "work"
+				}
+				if u, isLoad := v.(*ssa.UnOp); isLoad && u.Op == token.MUL {
+					if al, isAl := u.X.(*ssa.Alloc); isAl && core.ParamSpill(al) != nil {
+						return core.ParamSpill(al).Name() == "work"
+					}
+				}
+				if al, isAl := v.(*ssa.Alloc); isAl && core.ParamSpill(al) != nil {
+					return core.ParamSpill(al).Name() == "work"
+				}
+				return false
+			}
+			switch x := workCalls[0].Common().Value.(type) {
+			case *ssa.UnOp:
+				if b := boundTo(x.X); b == nil || !isWork(b) {
+					okWork = false
+				}
+			case *ssa.Parameter:
+				if b := boundTo(x); b == nil || !isWork(b) {
+					okWork = false
+				}
+			default:
+				okWork = false
+			}
+		}
+		facts++
+		c.Check(okWork, "G7", "Execute:closure-calls-work-once"+sfx, tgt.Pos(), "the spawned closure does not call the work function exactly once on every path", "one call of work, post-dominating the closure's entry")
+		okDone := len(dones) == 1 && len(workCalls) == 1 && core.PostDominatesEntry(tgt, dones[0])
+		if okDone {
+			if b := boundTo(dones[0].Common().Args[0]); b != ssa.Value(wgCell) {
+				okDone = false
+			}
+			if _, isDefer := dones[0].(*ssa.Defer); !isDefer {
+				// a plain call must come after the work call on every path; a deferred Done runs at function exit
+				okDone = okDone && core.Precedes(tgt, workCalls[0], dones[0])
+			}
+			if _, isGo := dones[0].(*ssa.Go); isGo {
+				okDone = false
+			}
+		}
+		facts++
+		c.Check(okDone, "G7", "Execute:Done-after-work"+sfx, tgt.Pos(), "wg.Done() on Execute's WaitGroup does not follow the work call on every path of the closure", "Done after work on every path")
+		// arguments: loads of per-iteration cells
+		okArgs := len(workCalls) == 1
+		if okArgs {
+			s := &spawnSite{kind: "go", at: g, parent: fn, top: fn, target: tgt, closure: mc}
+			oc := &ownCtx{site: s, loops: map[*ssa.Function][]*core.Loop{}, seen: map[ssa.Value]bool{}}
+			seenCells := map[ssa.Value]bool{}
+			seenVals := map[ssa.Value]bool{}
+			for _, a := range workCalls[0].Common().Args {
+				// by-value form: go func(from, to int) { work(from, to) }(start, end) — the values are fixed at the spawn
+				if p, isParam := a.(*ssa.Parameter); isParam {
+					bound := false
+					for pi, q := range tgt.Params {
+						if q == p && pi < len(g.Call.Args) {
+							v := g.Call.Args[pi]
+							if seenVals[v] {
+								okArgs = false // same value passed twice (start == end)
+							}
+							seenVals[v] = true
+							// computed in this iteration, not a value carried over from another one
+							if ins, isIns := v.(ssa.Instruction); isIns && cl.loop.Blocks[ins.Block()] {
+								bound = true
+							}
+						}
+					}
+					if !bound {
+						okArgs = false
+					}
+					continue
+				}
+				// an arithmetic expression over such values (work(start, start+size)): every leaf is a per-iteration cell
+				if bo, isBin := a.(*ssa.BinOp); isBin {
+					var leaves func(v ssa.Value, d int) bool
+					leaves = func(v ssa.Value, d int) bool {
+						v = core.StripConv(v)
+						if _, isK := core.ConstInt(v); isK {
+							return true
+						}
+						if x, isB := v.(*ssa.BinOp); isB && d < 6 {
+							return leaves(x.X, d+1) && leaves(x.Y, d+1)
+						}
+						if u, isLoad := v.(*ssa.UnOp); isLoad && u.Op == token.MUL {
+							if fv, isFV := u.X.(*ssa.FreeVar); isFV && oc.perIterationCell(fv) {
+								al, isAl := core.FreeVarBinding(fv).(*ssa.Alloc)
+								return isAl && cl.loop.Blocks[al.Block()]
+							}
+						}
+						return false
+					}
+					if !leaves(bo, 0) {
+						okArgs = false
+					}
+					continue
+				}
+				u, isLoad := a.(*ssa.UnOp)
+				if !isLoad {
+					okArgs = false
+					continue
+				}
+				fv, isFV := u.X.(*ssa.FreeVar)
+				if !isFV || !oc.perIterationCell(fv) {
+					okArgs = false
+					continue
+				}
+				b := core.FreeVarBinding(fv)
+				if seenCells[b] {
+					okArgs = false // same cell passed twice (start == end)
+				}
+				seenCells[b] = true
+				// allocated inside the loop
+				if al, isAl := b.(*ssa.Alloc); !isAl || !cl.loop.Blocks[al.Block()] {
 					okArgs = false
 				}
-				continue
 			}
-			u, isLoad := a.(*ssa.UnOp)
-			if !isLoad {
-				okArgs = false
-				continue
-			}
-			fv, isFV := u.X.(*ssa.FreeVar)
-			if !isFV || !oc.perIterationCell(fv) {
-				okArgs = false
-				continue
-			}
-			b := core.FreeVarBinding(fv)
-			if seenCells[b] {
-				okArgs = false // same cell passed twice (start == end)
-			}
-			seenCells[b] = true
-			// allocated inside the loop
-			if al, isAl := b.(*ssa.Alloc); !isAl || !cl.loop.Blocks[al.Block()] {
+			if len(workCalls[0].Common().Args) != 2 {
 				okArgs = false
 			}
 		}
-		if len(workCalls[0].Common().Args) != 2 {
-			okArgs = false
-		}
+		facts++
+		c.Check(okArgs, "G7", "Execute:per-iteration-range-cells"+sfx, g.Pos(), "the range handed to work is not read from two distinct cells allocated per iteration and left untouched after the spawn (ranges of different tasks could be confused)", "start/end loaded from per-iteration cells never stored after the spawn")
 	}
-	facts++
-	c.Check(okArgs, "G7", "Execute:per-iteration-range-cells", g.Pos(), "the range handed to work is not read from two distinct cells allocated per iteration and left untouched after the spawn (ranges of different tasks could be confused)", "start/end loaded from per-iteration cells never stored after the spawn")
 	// worker limit honoured: the task count is maxCpus[0] whenever a limit is given (the default NumCPU is
 	// used only on the `len(maxCpus) != 1` edge), possibly reduced to nbIterations — callers size their result
 	// channels by the limit they pass (rule G3)
